@@ -165,6 +165,9 @@ func genbankDBLinkPairParser(gb *GenBank, depth int) pars.Parser {
 		case -1:
 			return pars.NewError("expected `:`", state.Position())
 		default:
+			if len(s) < i+2 {
+				return pars.NewError("expected value after `:`", state.Position())
+			}
 			db, id := s[:i], s[i+2:]
 			gb.Fields.DBLink.Set(db, id)
 			return nil
